@@ -202,8 +202,9 @@ def add_engine(U):
          header_subs=[("ctx::Ctx", "Ctx"), ("ctx::Result<()>", "Result<(), CtxError>")],
          subs=[("let t = metrics::$X;", "", 1), ("t.observe();", "", 1),
                ("anyhow_error()\n                    .into()", "anyhow_into_ctx(anyhow_error())", None),
-               (".verify(self.genesis.hash(), epoch, &schedule_with_lifetime.schedule)\n                        .context(())?",
-                ".verify(self.genesis.hash(), epoch, &schedule_with_lifetime.schedule).map_err(|verif_e| anyhow_into_ctx(anyhow_error()))?   /* R-errmsg: .context()? on a non-anyhow error */"),
+               # (the arguments stay the repository's: a hole, so that a change of WHAT the block is verified against is decided, not a lost anchor)
+               ("b.verify($A)\n                        .context(())?",
+                "b.verify($A).map_err(|verif_e| anyhow_into_ctx(anyhow_error()))?   /* R-errmsg: .context()? on a non-anyhow error */"),
                ("""sync::wait_for(ctx, &mut self.block_store.subscribe(), |block_store| {
             block_store.queued.next() >= block.number()
         })""", "wait_for_queued_next_ge(ctx, &self.block_store, block.number())   /* R-stub */"),
